@@ -220,7 +220,7 @@ func TestVerif_C01_Conform(t *testing.T) {
 	defer r.Finish()
 	stats := &c01Stats{}
 	starts := c01ConfStarts()
-	depth := r.Pick(3, 4)
+	depth := r.Pick(4, 5)
 	batches := []int{1, 0}
 	if r.Thorough() {
 		batches = []int{1, 0, 2}
